@@ -363,6 +363,31 @@ func cmdCheck(args []string) {
 			jobs = append(jobs, replayJob{ID: id, Harness: o.cfg.Harness, Params: o.cfg.Params, Draws: nativeDraws(v.Draws)})
 			refs[id] = wref{out: oi, path: -1, viol: vi}
 		}
+		// a process death inside a write: the model's record is a structural
+		// snapshot, its length unit is not the real byte, so "how many bytes
+		// got out" is re-tried natively with real byte counts (the first one
+		// that reproduces is reported, with that count in the replay file)
+		nv := len(o.res.Violations)
+		for vi := 0; vi < nv; vi++ {
+			v := o.res.Violations[vi]
+			if drawVal(v.Draws, "crash-kind") != 2 || drawVal(v.Draws, "crash-partial") == 0 {
+				continue
+			}
+			for _, n := range []uint64{12, 24, 48, 72, 96, 120, 160} {
+				alt := *v
+				alt.Draws = append([]DrawRec{}, v.Draws...)
+				for i := range alt.Draws {
+					if alt.Draws[i].Label == "crash-partial" || alt.Draws[i].Label == "crash-arg" {
+						alt.Draws[i].V = n
+						alt.Draws[i].T = nil
+					}
+				}
+				o.res.Violations = append(o.res.Violations, &alt)
+				id++
+				jobs = append(jobs, replayJob{ID: id, Harness: o.cfg.Harness, Params: o.cfg.Params, Draws: nativeDraws(alt.Draws)})
+				refs[id] = wref{out: oi, path: -1, viol: len(o.res.Violations) - 1}
+			}
+		}
 	}
 	rres, err := runReplay(replayBin, jobs, 10*time.Minute)
 	if err != nil {
@@ -374,6 +399,8 @@ func cmdCheck(args []string) {
 	violations := 0
 	var knownLines []string
 	var violLines []string
+	siteDone := map[string]bool{}   // obligation sites with a natively reproduced counterexample
+	siteMiss := map[string]string{} // first non-reproducing counterexample per site
 	os.MkdirAll(filepath.Join(*vdir, "replays"), 0755)
 	for _, j := range jobs {
 		ref := refs[j.ID]
@@ -406,6 +433,10 @@ func cmdCheck(args []string) {
 			continue
 		}
 		v := o.res.Violations[ref.viol]
+		vkey := fmt.Sprintf("%d|%s", ref.out, v.Key)
+		if siteDone[vkey] {
+			continue // an earlier counterexample of this site already reproduced
+		}
 		reproduced := false
 		if strings.HasPrefix(v.ID, "panic: ") || strings.HasPrefix(v.ID, "footprint: ") {
 			reproduced = r.Outcome == "panic" || r.Outcome == "fatal"
@@ -423,10 +454,13 @@ func cmdCheck(args []string) {
 			reproduced = true
 		}
 		if !reproduced {
-			inconcl = append(inconcl, fmt.Sprintf("%s: counterexample for %s at %s does not reproduce natively (encoding or stub is wrong): draws[%s] native outcome=%s %s %s",
-				o.cfg.Harness, v.ID, v.Pos, drawStr(v.Draws), r.Outcome, r.FailID, r.Msg))
+			if _, had := siteMiss[vkey]; !had {
+				siteMiss[vkey] = fmt.Sprintf("%s: counterexample for %s at %s does not reproduce natively (encoding or stub is wrong): draws[%s] native outcome=%s %s %s",
+					o.cfg.Harness, v.ID, v.Pos, drawStr(v.Draws), r.Outcome, r.FailID, r.Msg)
+			}
 			continue
 		}
+		siteDone[vkey] = true
 		if k, ok := isKnown(v.Classes); ok {
 			knownLines = append(knownLines, fmt.Sprintf("KNOWN-FINDING: %s [%s at %s, e.g.%s]", k.Text, v.ID, v.Pos, drawStr(v.Draws)))
 			continue
@@ -440,6 +474,18 @@ func cmdCheck(args []string) {
 		os.WriteFile(rpath, rb, 0644)
 		violLines = append(violLines, fmt.Sprintf("VIOLATION property=%s replay=%s", *prop, rpath))
 		fmt.Printf("  violated: %s at %s in %s with%s (native: %s %s)\n", v.ID, v.Pos, o.cfg.Harness, drawStr(v.Draws), r.Outcome, firstLine(r.Msg))
+	}
+
+	// sites none of whose counterexamples reproduced
+	var missKeys []string
+	for k := range siteMiss {
+		if !siteDone[k] {
+			missKeys = append(missKeys, k)
+		}
+	}
+	sort.Strings(missKeys)
+	for _, k := range missKeys {
+		inconcl = append(inconcl, siteMiss[k])
 	}
 
 	// ---- native contract sweeps for stubs (not the deciding step)
@@ -651,6 +697,15 @@ func sortedKeys(m map[string]string) []string {
 }
 
 func isVisePkgDir(virt, repo string) bool { return strings.HasPrefix(virt, repo+"/") }
+
+func drawVal(ds []DrawRec, label string) uint64 {
+	for _, d := range ds {
+		if d.Label == label {
+			return d.V
+		}
+	}
+	return 0
+}
 
 func nativeDraws(ds []DrawRec) []DrawRec {
 	var out []DrawRec
